@@ -76,9 +76,13 @@ func (h *c17H) genSource(n int, kind string) []string {
 	if kind == "direct" || kind == "long" {
 		mode = 3
 	}
+	if kind == "shuffled" {
+		add = "d"
+		ops = append(ops, fmt.Sprintf("z %d", 1+r.Int63n(1<<40)))
+	}
 	for i := 0; i < n; i++ {
 		ops = append(ops, add+" "+h.randF(mode).String())
-		if kind == "direct" {
+		if kind == "direct" || kind == "shuffled" {
 			continue
 		}
 		switch x := r.Intn(14); {
@@ -261,7 +265,7 @@ func (h *c17H) generate() error {
 	// 1. small stores, every scenario
 	nFull := c.Pick(2, 10)
 	nPart := c.Pick(8, 60)
-	kinds := []string{"mixed", "reorg", "mixed", "plain"}
+	kinds := []string{"mixed", "reorg", "mixed", "plain", "shuffled"}
 	for i := 0; i < nFull+nPart; i++ {
 		kind := kinds[i%len(kinds)]
 		n := 1 + r.Intn(60)
